@@ -136,12 +136,12 @@ def _bind_args(ex, node, st, params, defaults, recv=None):
             raise Unsupported("star args", node)
         if i >= len(names):
             raise Unsupported("too many args for contract", node)
-        binds[names[i]] = T.coerce(ex.ev(a, st), params[names[i]])
+        binds[names[i]] = _coerce_arg(ex, st, ex.ev(a, st), params[names[i]], names[i], node)
         i += 1
     for k in node.keywords:
         if k.arg is None or k.arg not in params:
             raise Unsupported(f"keyword {k.arg}", node)
-        binds[k.arg] = T.coerce(ex.ev(k.value, st), params[k.arg])
+        binds[k.arg] = _coerce_arg(ex, st, ex.ev(k.value, st), params[k.arg], k.arg, node)
     for n in names:
         if n not in binds:
             if n in defaults:
@@ -149,6 +149,14 @@ def _bind_args(ex, node, st, params, defaults, recv=None):
             else:
                 raise Unsupported(f"missing arg {n}", node)
     return binds
+
+
+def _coerce_arg(ex, st, v, ty, name, node):
+    if isinstance(v.ty, T.Opt) and not isinstance(ty, T.Opt) and ty is not T.NoneT:
+        ex.oblige(st, "pre", f"arg-not-None({name})@{node.lineno}", z3.Not(v.terms[0]), node,
+                  f"argument {name} must not be None")
+        v = T.opt_inner(v)
+    return T.coerce(v, ty)
 
 
 def _apply_directive(ex, d, node, st, txt):
@@ -228,6 +236,17 @@ def _apply_directive(ex, d, node, st, txt):
             fk = REG.field_key(fname, cls)
             ex.h.set_field(st, o, fk[0], fk[1], ex.ev(a, st))
         return V(T.Ref(cls), [o])
+    if kind == "keyfield":
+        # recv.get("key"[, default]) on a str-keyed record (e.g. Project.attributes): constant key -> field <cls>.<key>
+        cls = d[1]
+        a0 = node.args[0]
+        if not (isinstance(a0, ast.Constant) and isinstance(a0.value, str)):
+            raise Unsupported("record key must be a literal", node)
+        fk = REG.field_key(a0.value, cls)
+        if fk is None:
+            raise Unsupported(f"record key {cls}.{a0.value} has no declared type", node)
+        r = T.opt_inner(recv)
+        return ex.h.get_field(st, r.t, fk[0], fk[1])
     if kind == "attrget":
         # node.get("name", scIdx) on property tree nodes
         return _attr_get(ex, node, st, recv)
@@ -437,6 +456,13 @@ def _spec_form(ex, name, node, st):
         for a in node.args[1:]:
             args += ex.ev(a, st).terms
         return V(fv.ty.ret, [fv.fn(*args)])
+    if name.startswith("uf_"):
+        ret = UF_RET.get(name, T.Real)
+        args = []
+        for a in node.args:
+            args += T.opt_inner(ex.ev(a, st)).terms
+        fn = z3.Function(name, *[a.sort() for a in args], ret.sorts()[0])
+        return V(ret, [fn(*args)])
     if name in REG.ghost:
         params, src = REG.ghost[name]
         if len(params) != len(node.args):
@@ -462,6 +488,9 @@ def _syn_integral(e):
         if k in (z3.Z3_OP_ADD, z3.Z3_OP_SUB, z3.Z3_OP_MUL, z3.Z3_OP_UMINUS):
             return all(_syn_integral(c) for c in e.children())
     return False
+
+
+UF_RET = {"uf_isWorkingTime": T.Bool, "uf_tzoff": T.Real}
 
 
 def parse_ty(spec: str):
@@ -623,6 +652,8 @@ def _method(ex, f: ast.Attribute, node, st):
     if ty is T.TD and name == "total_seconds":
         return T.mk_real(base.t)
     if ty is T.DT:
+        if name == "weekday" and ex.c.opaque_calendar:
+            return ex.cal_uf(st, "weekday", real_floor(base.t))
         if name == "weekday":
             days = real_floor(base.t) / 86400
             return T.mk_int((days + 3) % 7)
